@@ -35,6 +35,7 @@ pub(crate) struct Client {
     pub nc: Ctx,
     pub consensus: Consensus,
     pub mmr_activated_epoch: u64,
+    pub genesis: packed::Block,
 }
 
 #[derive(Debug, Clone)]
@@ -56,7 +57,7 @@ impl Client {
         let mut lc = LightClientProtocol::new(storage.clone(), peers.clone(), consensus.clone());
         lc.set_mmr_activated_epoch(0);
         lc.set_last_n_blocks(last_n);
-        Client { storage, peers, lc, nc: Ctx::new(SupportProtocols::LightClient), consensus: consensus.clone(), mmr_activated_epoch: 0 }
+        Client { storage, peers, lc, nc: Ctx::new(SupportProtocols::LightClient), consensus: consensus.clone(), mmr_activated_epoch: 0, genesis: chain.genesis_block() }
     }
 
     fn collect(&self, panicked: bool, peer: PeerIndex) -> Outcome {
@@ -92,6 +93,19 @@ impl Client {
     pub(crate) fn tick(&mut self, token: u64, peer: PeerIndex) -> Outcome {
         let r = drive(self.lc.notify(self.nc.context(), token));
         self.collect(r.is_err(), peer)
+    }
+
+    /// process restart: all in-memory state is rebuilt from the store
+    pub(crate) fn restart(&mut self, last_n: u64, max_outbound: u32) {
+        // the start-up sequence of subcmds.rs: init_genesis_block, then Peers from the stored check point
+        self.storage.init_genesis_block(self.genesis.clone());
+        let peers = Arc::new(Peers::new(max_outbound, CHECK_POINT_INTERVAL, self.storage.get_last_check_point()));
+        let mut lc = LightClientProtocol::new(self.storage.clone(), peers.clone(), self.consensus.clone());
+        lc.set_mmr_activated_epoch(self.mmr_activated_epoch);
+        lc.set_last_n_blocks(last_n);
+        self.peers = peers;
+        self.lc = lc;
+        self.nc = Ctx::new(SupportProtocols::LightClient);
     }
 
     pub(crate) fn state(&self, peer: PeerIndex) -> Option<PeerState> {
@@ -187,9 +201,9 @@ pub(crate) fn vh_term(vh: &VerifiableHeader, consensus: &Consensus, mmr_activate
     let h = vh.header();
     let ptd: U256 = vh.parent_chain_root().total_difficulty().unpack();
     format!(
-        "(mkVH {} {} {} {:#x} {:#x} {} {} {} {} {})",
+        "(mkVH {} {} {} {:#x} {:#x} {} {} {} {} {} {})",
         hx(&h.hash()), xid(vh), h.number(), ptd, compact_to_difficulty(h.compact_target()), h.compact_target(),
-        epoch_term(h), hx(&h.parent_hash()),
+        epoch_term(h), hx(&h.parent_hash()), Unpack::<u64>::unpack(&vh.parent_chain_root().end_number()),
         root_ok(vh, mmr_activated_epoch),
         consensus.pow_engine().verify(&h.data()),
     )
